@@ -96,6 +96,12 @@ func scripted(tw *hx.TraceWriter, rep *hx.Report, seed int64) int {
 			sc.block(1, sc.stake(k4, k4, c12, 3000000+int64(cycle)*250000)) // bump + chains change
 			sc.block(1, sc.stake(k4, k4, c2, 3000000+int64(cycle)*250000))  // chains only
 			sc.block(1, sc.stake(k4, k4, c2, 2999999))                      // lowering refused
+			// the admission limits on the edit path: too many chains (alone / with a bump), a duplicated id,
+			// a malformed id, no chains, a bump the balance cannot cover
+			cur := 3000000 + int64(cycle)*250000
+			sc.block(1, sc.stake(k4, k4, c123, cur), sc.stake(k4, k4, c123, cur+100000))
+			sc.block(1, sc.stake(k4, k4, []string{"0002", "0002"}, cur), sc.stake(k4, k4, []string{"0001", "zz"}, cur), sc.stake(k4, k4, nil, cur))
+			sc.block(1, sc.stake(k4, k4, c2, cur+sc.w.s.Project().Bal[sc.w.name(k4)]), sc.stake(k4, k4, c2, cur))
 			sc.block(1, sc.unstake(k4, k5))                                 // not its own request
 			sc.block(1, sc.unstake(k4, k4))
 			sc.block(1, sc.unstake(k4, k4)) // again: refused, completion time unchanged
